@@ -416,3 +416,47 @@ class CollectedHopsToEntry:
         return (len(_trace) == 1 and _trace[0][0] == "entry" and _trace[0][1] == (x, y) and e.key == key and e.mask == mask
                 and all((r in e.route) == (r in route.outs) for r in ROUTES)
                 and all((r in e.sources) == (r in route.ins) for r in [None] + ROUTES))
+
+from rig.place_and_route.routing_tree import RoutingTree    # noqa: E402,F401
+from pyvc.values import TOpt, TTuple, TList   # noqa: E402
+
+# ---- RoutingTree.traverse: one node taken from the queue (fragment) ------------------------------------------------------------------
+SUBTREE = _TRec10("RoutingTree", ident=TInt())
+LEAF = _TRec10("Vertex", ident=TInt())
+
+
+def _tq_popleft(E, obj, args, kwargs, st, node):
+    return [(st, (st.env["g_direction"], st.env["g_node"]), None)]
+
+
+def _tq_append(E, obj, args, kwargs, st, node):
+    s = st.copy()
+    s.trace = _ListV10(s.trace.items + (("queued", args[0][0], args[0][1].fields["ident"]),))
+    return [(s, _NONE10, None)]
+
+
+@contract("rig/place_and_route/routing_tree.py::RoutingTree.traverse@whilebody:0")
+class TraverseNode:
+    """one node (here with a subtree, a leaf with a route and a leaf without): the hop yielded is (the direction the node was
+    reached by, its chip, the set of the directions of ALL its children that have one - subtrees and leaves alike); exactly the
+    children that are subtrees are queued, each with its own direction"""
+    properties = ("C10", "C01")
+    params = dict(to_visit=_TRec10("Queue"), g_direction=TOpt(TInt(0, 5)),
+                  g_node=_TRec10("RoutingTree", chip=TTuple(TInt(0, 255), TInt(0, 255)),
+                                 children=TList(TTuple(TInt(0, 5), SUBTREE), TTuple(TInt(6, 23), LEAF), TTuple(TOpt(TInt(0, 23)), LEAF))))
+    fragment_result = ()
+    fragment_head = "while to_visit:"
+    externals = {"Queue.popleft": _tq_popleft, "Queue.append": _tq_append}
+    yields = TTuple(TOpt(TInt(0, 5)), TTuple(TInt(0, 255), TInt(0, 255)), TSmallSet(ROUTES))
+    options = {"int_class": "rig/routing_table/entries.py::Routes", "no_merge": True}
+    assumptions = ["the queue is opaque (what is taken from it is a ghost, what is put on it is recorded); the node has three children of the three kinds"]
+
+    def native(to_visit):
+        raise __import__("pyvc.replay", fromlist=["OutsideHarness"]).OutsideHarness()
+
+    def ensures_yields_the_hop_with_every_childs_direction_and_queues_the_subtrees(g_direction, g_node, _trace, _yielded):
+        c = g_node.children
+        hop = _yielded[0]
+        return (len(_yielded) == 1 and hop[0] == g_direction and hop[1] == g_node.chip
+                and all((r in hop[2]) == (r == c[0][0] or r == c[1][0] or (c[2][0] is not None and r == c[2][0])) for r in ROUTES)
+                and len(_trace) == 1 and _trace[0] == ("queued", c[0][0], c[0][1].ident))
